@@ -21,3 +21,4 @@ mkdir -p /verif/seeded/$ID
 cp out/patch.verified.diff /verif/seeded/$ID/patch.diff
 cp out/demo.rs out/notes.md /verif/seeded/$ID/ 2>/dev/null
 grep -h "test result" out/verify_with.log out/verify_without.log out/verify_suite.log 2>/dev/null > /verif/seeded/$ID/verify_summary.txt
+rm -rf "$W/target"
